@@ -399,3 +399,9 @@ def main_dispatch(prop, run_fn, replay_fn=None):
     except Inconclusive as e:
         print("INCONCLUSIVE reason=%s" % e)
         return 2
+    except Exception:
+        # a fault of the checking machinery itself is never a verdict on the property
+        import traceback
+        traceback.print_exc()
+        print("INCONCLUSIVE reason=harness error (see traceback)")
+        return 2
